@@ -205,10 +205,10 @@ PROPS = {
                                      "local capabilities behave as the harness's (methods 0-5)"],
         "assumptions": ["no transport faults (C09)"],
         "shards": {"quick": 4, "thorough": 16},
-        "no_panic": ["rpc ", "rpcq ", "embargo "],
+        "no_panic": ["rpc ", "rpcq ", "embargo ", "rpcgen "],
     },
     "C07": {
-        "modules": ["Capnp.Props.C07", "Capnp.Props.C07Q"],
+        "modules": ["Capnp.Props.C07", "Capnp.Props.C07Q", "Capnp.Props.C07G"],
         "gen": False,
         "confirm": True,
         "rule": "mixed rpc scripts heavy in capability traffic (capabilities in params and results in both directions, the same capability sent "
@@ -216,11 +216,12 @@ PROPS = {
                 "oracles: Release(id, n) carries exactly the number of descriptors received for id since the last Release; no delivery to a local "
                 "capability after its shutdown; after Close and release of the harness's handles every local capability was shut down exactly once; "
                 "no goroutine left (S); outbound scripts as in C06 compared with Model.RpcQ after every operation, import table (id=wireRefs) "
-                "and Release messages included (M).",
-        "trusted": COMMON_TRUSTED + ["import-side counting is modelled sequentially (Model.RpcQ); the generation race (a reference arriving while the last handle is being released) is covered by the oracle stream and directed scripts only"],
+                "and Release messages included (M); schedules of descriptors arriving, handles released and one delayed Shutdown at a time over one "
+                "import id: table entry and Releases after every step compared with Model.ImportGen (M).",
+        "trusted": COMMON_TRUSTED + ["import-side counting is modelled sequentially (Model.RpcQ) and, for one import id, with delayed Shutdowns (Model.ImportGen; the harness delays one Shutdown at a time by parking a call of the client)"],
         "assumptions": [],
         "shards": {"quick": 4, "thorough": 16},
-        "no_panic": ["rpc ", "rpcq ", "embargo "],
+        "no_panic": ["rpc ", "rpcq ", "embargo ", "rpcgen "],
     },
     "C08": {
         "modules": ["Capnp.Props.C08"],
@@ -233,7 +234,7 @@ PROPS = {
         "trusted": COMMON_TRUSTED + ["raw corruptions exercise the decoder glue; only the table logic is modelled"],
         "assumptions": [],
         "shards": {"quick": 4, "thorough": 16},
-        "no_panic": ["rpc ", "rpcq ", "embargo "],
+        "no_panic": ["rpc ", "rpcq ", "embargo ", "rpcgen "],
     },
     "C09": {
         "modules": ["Capnp.Props.C09", "Capnp.Gen.Locks"],
@@ -251,7 +252,7 @@ PROPS = {
                                      "'bounded time' is observed as deadlines of the harness, not proved"],
         "assumptions": ["goroutine-level interleavings between critical sections are sampled by the stream, not enumerated"],
         "shards": {"quick": 4, "thorough": 16},
-        "no_panic": ["rpc ", "rpcq ", "embargo "],
+        "no_panic": ["rpc ", "rpcq ", "embargo ", "rpcgen "],
     },
     "C15": {
         "modules": ["Capnp.Props.C15"],
